@@ -21,6 +21,8 @@ def _two_on_worker(b, k1, k2, opt2=False, sel=False, cumul=False):
             return b.task(nm, "V", min=1, max=3, optional=optional)
         if k == "V0":
             return b.task(nm, "V", min=0, max=2, optional=optional)
+        if k == "F3":
+            return b.task(nm, "F", dur=3, optional=optional)
     a, c = mk("A", k1), mk("B", k2, opt2)
     if cumul:
         cu = b.cumul("M", 2)
@@ -63,7 +65,7 @@ def fam_C04(tier, seed):
         ps.append(b.done())
     # ResourcePeriodicallyUnavailable (horizon up to 8)
     for (k1, k2), md, (ivs, period, st, off, en) in itertools.product(
-            [("F2", "F1"), ("V", "F1"), ("F1", "Z")], [dict(), dict(sel=True), dict(cumul=True)],
+            [("F2", "F1"), ("V", "F1"), ("F1", "Z"), ("F3", "F1")], [dict(), dict(sel=True), dict(cumul=True)],
             [([[1, 2]], 3, 0, 0, None), ([[0, 1]], 3, 0, 0, None), ([[2, 3]], 4, 0, 0, None),
              ([[1, 2]], 3, 0, 1, None), ([[1, 2]], 3, 3, 0, None), ([[1, 2]], 3, 0, 0, 5),
              ([[1, 3]], 4, 2, 0, 7), ([[0, 1], [2, 3]], 4, 0, 0, None)]):
@@ -82,8 +84,8 @@ def fam_C04(tier, seed):
         ps.append(b.done())
     # ResourcePeriodicallyInterrupted
     for (k1, k2), md, (ivs, period, st, off, en) in itertools.product(
-            [("V", "F1"), ("F2", "F1")], [dict(), dict(cumul=True)],
-            [([[1, 2]], 3, 0, 0, None), ([[2, 3]], 4, 0, 0, None), ([[1, 2]], 3, 0, 1, None),
+            [("V", "F1"), ("F2", "F1"), ("F3", "F1")], [dict(), dict(cumul=True)],
+            [([[1, 2]], 3, 0, 0, None), ([[2, 3]], 4, 0, 0, None), ([[1, 2]], 3, 0, 1, None), ([[1, 2]], 5, 0, 0, None),
              ([[1, 2]], 3, 3, 0, None), ([[1, 2]], 3, 0, 0, 5)]):
         b = PB(7, tag="ResourcePeriodicallyInterrupted")
         _, res = _two_on_worker(b, k1, k2, **md)
